@@ -300,7 +300,7 @@ Section RStep.
     cbn [forallb map enc_list] in *. apply andb_prop in Hok. destruct Hok as [Hv Hok].
     apply andb_prop in Hc. destruct Hc as [Cv Hc].
     bind_inv H b Eb. bind_inv H r Er. rewrite (IH _ _ _ Hv Cv Eb). cbn [bind].
-    rewrite (IHvs _ Hok Hc Er). exact H.
+    rewrite (IHvs _ Hok Hc eq_refl). exact H.
   Qed.
 
   Lemma reenc_step t v bs :
@@ -308,15 +308,20 @@ Section RStep.
     enc_step numeric e encr t v = Ok bs ->
     enc_step numeric e encr t (norm_step e normr t v) = Ok bs.
   Proof.
-    intros Hok Hc H. destruct t; try (destruct v; exact H).
-    - (* ENUMERATED *)
-      replace (norm_step e normr (TEnum root ext) v) with v by (destruct v; reflexivity). exact H.
+    intros Hok Hc H. destruct t.
+    - destruct v; exact H.
+    - destruct v; exact H.
+    - destruct v; exact H.
+    - destruct v; exact H.
     - (* BIT STRING *)
       destruct v; try exact H. cbn [norm_step enc_step ok_step] in *.
       unfold bits_ok in Hok. apply andb_prop in Hok. destruct Hok as [Hok _].
       unfold enc_bits in *.
       destruct (bits_payload bytes nbits) as [[[payload unused] cnt]|] eqn:E; [|discriminate].
       cbn [enc_step]. unfold enc_bits. rewrite (bits_payload_idem _ _ _ _ _ Hok E). exact H.
+    - destruct v; exact H.
+    - destruct v; exact H.
+    - destruct v; exact H.
     - (* SEQUENCE / SET *)
       destruct v; try (destruct isset; exact H).
       cbn [ok_step canon_step norm_step] in *.
